@@ -1,4 +1,6 @@
 """Tables used by the walker, ladder and hook models."""
+import ast
+
 from gen_tables import *  # noqa: F401,F403  (helpers: load, const_strs, module_assign, func, in_tuples, pick, coq_strs, ...)
 
 
@@ -14,6 +16,16 @@ def build():
     out.append(coq_strs("SAFE_REDIRECT_TARGETS",
                         const_strs(module_assign(an, "SAFE_REDIRECT_TARGETS"), "SAFE_REDIRECT_TARGETS"),
                         "core/analyzer.py SAFE_REDIRECT_TARGETS"))
+    unk = module_assign(an, "_UNKNOWN_CWD")
+    if not (isinstance(unk, ast.Call) and getattr(unk.func, "id", None) == "Path" and len(unk.args) == 1
+            and isinstance(unk.args[0], ast.Constant) and isinstance(unk.args[0].value, str)):
+        raise TieBroken("_UNKNOWN_CWD: expected Path(<string literal>)")
+    out.append(f"(* core/analyzer.py _UNKNOWN_CWD *)\nDefinition UNKNOWN_CWD : str := {coq_str(unk.args[0].value)}.\n")
+    chd = in_tuples(func(an, "_changes_directory"), "changes_directory")
+    out.append(coq_strs("CHDIR_COMMANDS", pick(chd, ["cd", "pushd"], "directory-changing commands"),
+                        "_changes_directory: commands that change the shell's directory"))
+    out.append(coq_strs("CHDIR_OPAQUE_KINDS", pick(chd, ["subshell", "cmdsub"], "kinds run in their own process"),
+                        "_changes_directory: node kinds whose directory changes do not reach the current shell"))
     red = in_tuples(func(an, "_analyze_redirects"), "redirect ops")
     out.append(coq_strs("REDIRECT_WRITE_OPS", pick(red, [">", ">>"], "write operators"),
                         "_analyze_redirects: bare operators that open a file for writing"))
